@@ -117,6 +117,22 @@ def correspond(run):
                        "sketchers); compared: outcome class and the exact bits of the float result vs count/len from the "
                        "model; non-trivial = distinct case with a mismatch outcome or 0 < count < len",
                   extra=dist)
+    # the property's own clauses on the implementation: result = equal positions / length, mismatch reported
+    for c in cases:
+        la, lb = len(c["a"]), len(c["b"])
+        if la != lb and c["outcome"] == "ok":
+            run.violation("est-length-mismatch", "%s on sketches of lengths %d and %d returns a value instead of reporting the mismatch" % (
+                c["est"], la, lb), {"kind": "impl-input", "input": {"estimator": c["est"], "type": c["ty"], "a": c["a"], "b": c["b"]},
+                                    "observed": {"outcome": c["outcome"], "bits": c["bits"]}, "expected": "error or panic"})
+            break
+        if la == lb and la > 0:
+            cnt = sum(1 for x, y in zip(c["a"], c["b"]) if x == y)
+            if c["outcome"] != "ok" or expected_bits(cnt, la, c["res"]) != c["bits"]:
+                run.violation("est-not-exact", "%s on two sketches of length %d with %d equal positions returns outcome %s, bits %s (expected the "
+                              "float %d/%d)" % (c["est"], la, cnt, c["outcome"], c["bits"], cnt, la),
+                              {"kind": "impl-input", "input": {"estimator": c["est"], "type": c["ty"], "a": c["a"], "b": c["b"]},
+                               "observed": {"outcome": c["outcome"], "bits": c["bits"]}, "expected": {"count": cnt, "len": la}})
+                break
     run.oblige("correspondence:estimators", "correspondence", not bad,
                "%d cases differ; first: %s" % (len(bad), json.dumps(bad[0])[:500] if bad else ""))
 
@@ -168,9 +184,28 @@ def correspond(run):
 
 
 def search(run):
-    """counting estimators: brute force on the implementation is what `correspond` already did through the model;
-    when the translator or proofs broke, re-use the disagreeing cases as replays"""
-    return
+    """counting estimators: brute force on the implementation is what `correspond` already did; the MLE: many more
+    pairs of sets (every family, in particular disjoint sets of unrelated sizes), outcome class and range"""
+    if [v for v in run.violations if v["key"].startswith("mle-")]:
+        return
+    for seed in range(3):
+        rc, js, out, err = vlib.harness(["mle-cases", "--seed", run.seed + 101 + seed, "--n", 9, "--big", 100000], timeout=2400)
+        if rc != 0 or js is None:
+            return
+        for c in js["cases"]:
+            if c["outcome"] != "ok":
+                run.violation("mle-" + c["outcome"], "get_mle %s for %s sets %s / %s (b=%s, m=%d, dequal=%s, cards %s %s)" % (
+                    "panics" if c["outcome"] == "panic" else "returns None", c["family"], c["set1"], c["set2"], c["b"], c["m"],
+                    c["info"].get("dequal"), c["info"].get("card1"), c["info"].get("card2")),
+                    {"kind": "impl-input", "sketcher": "MleJaccard::get_mle", "input": {k: c[k] for k in ("b", "m", "a", "q", "ty", "set1", "set2")},
+                     "observed": c["outcome"], "expected": "Some(j), j finite in [0,1]"})
+                return
+            v = c["value"]
+            if not (v == v and 0.0 <= v <= 1.0):
+                run.violation("mle-range", "get_mle returned %r for %s sets (b=%s, m=%d)" % (v, c["family"], c["b"], c["m"]),
+                              {"kind": "impl-input", "sketcher": "MleJaccard::get_mle",
+                               "input": {k: c[k] for k in ("b", "m", "a", "q", "ty", "set1", "set2")}, "observed": v})
+                return
 
 
 def replay(path):
